@@ -410,7 +410,28 @@ class Expect:
         d = self.position(mod, ty, coded, note)
         return d if self.structured(ty) else f"(seq 0 1 none (m {d}))"
 
-    def sort_key(self, comps):
+    def type_tag(self, mod, ty, depth=0):
+        """X.680: the tag of a type — its own tag, else the tag of the referenced type, else the
+        universal tag of its kind; an untagged CHOICE is placed by the smallest tag of its ROOT
+        alternatives (X.680 8.6 / X.691 21.1; all alternatives untagged: automatic tags [0]..)"""
+        if ty["tag"] is not None:
+            return ty["tag"]
+        k = ty["k"]
+        if k == "ref":
+            q = f"{mod}::{rust_name(ty['name'])}"
+            if q not in self.defs or depth > 20:
+                raise Unsupported(f"tag of reference {ty['name']}")
+            return self.type_tag(mod, self.defs[q], depth + 1)
+        if k == "choice":
+            alts = ty["alts"] if ty["root"] is None else ty["alts"][:ty["root"]]
+            if not alts:
+                raise Unsupported("tag of a CHOICE without root alternatives")
+            if all(a["ty"]["tag"] is None for a in ty["alts"]):
+                return (CLASS_RANK["CONTEXT"], 0)
+            return min(self.type_tag(mod, a["ty"], depth + 1) for a in alts)
+        return (0, UNIVERSAL.get(ty.get("cs", k), UNIVERSAL.get(k, 99)))
+
+    def sort_key(self, comps, mod=None):
         any_explicit = any(c["ty"]["tag"] is not None for c in comps)
 
         def key(ic):
@@ -419,8 +440,7 @@ class Expect:
                 return c["ty"]["tag"]
             if not any_explicit:
                 return (CLASS_RANK["CONTEXT"], i)
-            k = c["ty"]["k"]
-            return (0, UNIVERSAL.get(c["ty"].get("cs", k), UNIVERSAL.get(k, 99)))
+            return self.type_tag(mod, c["ty"])
         return key
 
     def position(self, mod, ty, coded, note):
@@ -475,7 +495,7 @@ class Expect:
             parts = [list(enumerate(comps))[:nroot], list(enumerate(comps))[nroot:]]
             if k == "set":
                 # X.691 21.1: only the root components are sorted, the additions stay as written
-                parts = [sorted(parts[0], key=self.sort_key(comps)), parts[1]]
+                parts = [sorted(parts[0], key=self.sort_key(comps, mod)), parts[1]]
             fields, std_opt = [], 0
             for pi, part in enumerate(parts):
                 for _, c in part:
@@ -645,7 +665,7 @@ class ToLean:
             nroot = len(comps) if root is None else root
             parts = [comps[:nroot], comps[nroot:]]
             if k == "set":
-                parts = [sorted(parts[0], key=self.x.sort_key(ty["comps"])), parts[1]]
+                parts = [sorted(parts[0], key=self.x.sort_key(ty["comps"], mod)), parts[1]]
 
             def cl(l):
                 out = ".nil"
@@ -692,6 +712,16 @@ class ConstsFromSource(UperBase):
     name = "consts"
     exhaustive = True
 
+    def __init__(self, prop="C08"):
+        """`prop`: the property whose check runs the stream.  The recorded deviations of the generator
+        (DEVIATIONS, findings of C08) are reported as findings by C08's check only; the UPER checks that
+        include the stream (their statements quantify over the *source* schema, the codec sees only the
+        descriptor) accept a recorded deviation as coded — each has its own finding of that property
+        where it matters (C02 F-semi, F-64k) — and report every other difference between source and
+        descriptor"""
+        super().__init__()
+        self.prop = prop
+
     def prepare(self, harness, driver):
         super().prepare(harness, driver)
         if getattr(self, "_ready", None) == harness:
@@ -708,7 +738,7 @@ class ConstsFromSource(UperBase):
             except (Unsupported, KeyError, ValueError) as e:
                 self.want[n] = f"{e}"
         self.shapes = shape_table()
-        self.open = {f.get("class") for f in vlib.load_findings("C08")}
+        self.open = {f.get("class") for f in vlib.load_findings(self.prop)}
         # the Lean model on the same sources
         self.lean, self.lean_err = {}, None
         tl = ToLean(self.x)
